@@ -83,7 +83,8 @@ def main(run):
         "element-sum-cancelling blocks; and many q-points in one run_qpoints call (1, 2, small primes, a prime in 4001..6000 for "
         "an 8-atom cell, a prime in 150..300 for a 96-atom cell; with/without eigenvectors and dynamical matrices): every row; "
         "and 3 relabelled descriptions of a crystal per run (gen.relabelled_cell, at least one left-handed): the oracle in "
-        "the relabelled description and the spectrum at qmap(q) against the original description. "
+        "the relabelled description and the spectrum at qmap(q) against the original description; and 3 primitive cells with a "
+        "prescribed atom order (positions_to_reorder, p2s_map not ascending) through DynamicalMatrix / get_dynamical_matrix. "
         "Non-trivial = the oracle matrix is non-zero, and for the short-range clause the cutoff reaches at least the "
         "nearest neighbours; for the commensurate clause the cutoff exceeds half the shortest supercell vector.")
     run.cov["trusted_base"] = [
@@ -697,6 +698,111 @@ def main(run):
                     run.case(("relabel", name, dims, mname, dense, clause, float(cutoff), tuple(map(float, qq))),
                              nontrivial=float(np.abs(D2[n]).max()) > 0 and kind != "gamma")
         run.count("relabelled descriptions: %s (det %+d)" % (mname, int(round(np.linalg.det(np.array(gen.UNIMODULAR[mname]))))))
+
+    # ------------------------------------------------------------------ E. primitive cells with a prescribed atom order
+    # (Primitive(supercell, pmat, positions_to_reorder=...): p2s_map is then not ascending) through
+    # DynamicalMatrix(supercell, primitive, fc) / get_dynamical_matrix: full and compact, C and Py, dense or sparse svecs,
+    # against the lattice Fourier sum of THAT primitive cell; two rows per case also through the Lean model with the
+    # index maps of that primitive.
+    from phonopy.harmonic.dynamical_matrix import DynamicalMatrix, get_dynamical_matrix
+    from phonopy.structure.cells import Primitive, get_primitive
+
+    ro_cells = ["cscl", "nacl_prim", "zincblende_prim", "hcp", "wurtzite", "triclinic", "nacl_interleaved", "nacl", "rutile", "perovskite", "bcc", "mono_P"]
+    ro_lines, ro_meta = [], []
+    _t_ro = __import__("time").time()
+    n_ro = 0
+    attempts = 0
+    while n_ro < (10 if thorough else 3) and attempts < 200:
+        attempts += 1
+        name = rng.choice(ro_cells)
+        cell, cen = U.get_cell(name)
+        smat = cand_smats[rng.randrange(len(cand_smats))] if rng.random() < 0.7 else rng.choice(gen.supercell_matrices(rng, max_det=8, count=12))
+        det = int(round(np.linalg.det(smat)))
+        if det < 2 or len(cell) * det > 72:
+            continue
+        try:
+            ph = Phonopy(cell, supercell_matrix=smat, primitive_matrix=cen, log_level=0)
+        except Exception:
+            continue
+        prim0, sc = ph.primitive, ph.supercell
+        npa = len(prim0)
+        if npa < 2:
+            continue
+        minv = gen.min_lattice_vector(sc.cell)
+        nn = U.nn_distance(cell)
+        clause = "short" if minv * 0.49 >= nn * 1.001 else "long"
+        if clause == "short":
+            cutoff = minv * rng.uniform(max(0.40, nn * 1.001 / minv), 0.495)
+        else:
+            cutoff = rng.uniform(max(nn * 1.01, 0.55 * minv), 1.2 * minv)
+            if len(sc) ** 2 * (2 * U.images_needed(sc.cell, cutoff) + 1) ** 3 > 1.5e6:
+                continue
+        perm = list(range(npa))
+        while perm == list(range(npa)):
+            rng.shuffle(perm)
+        dense = rng.random() < 0.6
+        maker = rng.choice(["Primitive", "get_primitive"])
+        pos = np.array(prim0.scaled_positions)[perm]
+        if maker == "Primitive":
+            prim = Primitive(sc, prim0.primitive_matrix, store_dense_svecs=dense, positions_to_reorder=pos)
+        else:
+            prim = get_primitive(sc, prim0.primitive_matrix, store_dense_svecs=dense, positions_to_reorder=pos)
+        info = dict(cell=name, smat=smat.tolist(), centring=cen, permutation=perm, p2s_map=list(map(int, prim.p2s_map)), constructor=maker,
+                    dense_svecs=dense, clause=clause, cutoff=float(cutoff), n_satom=len(sc), n_patom=npa)
+        if list(prim.p2s_map) == sorted(prim.p2s_map):
+            run.count("reordered primitive: p2s_map still ascending (skipped)")
+            continue
+        kfun, kdesc = U.make_kfun(rng)
+        fc = gen.pair_fc(sc, cutoff, kfun=kfun, images=U.images_needed(sc.cell, cutoff))
+        fcc = full_fc_to_compact_fc(prim, fc)
+        if clause == "short":
+            qs = U.qpoints(rng, ph, n_random=2, n_comm=1, n_zb=1, n_out=0)
+        else:
+            qs = [x for x in U.qpoints(rng, ph, n_random=0, n_comm=3, n_zb=1, n_out=0) if U.is_commensurate(ph, x[1])]
+        qarr = np.array([x[1] for x in qs])
+        D = U.fourier_dynmat(prim.cell, prim.scaled_positions, prim.numbers, prim.masses, kfun, cutoff, qarr)
+        floor = float(np.abs(fc).max()) / float(min(prim.masses))
+        Tr = U.dm_tables(prim)
+        for layout, arr in (("full", fc), ("compact", fcc)):
+            dms = {"DynamicalMatrix": DynamicalMatrix(sc, prim, arr.copy()), "get_dynamical_matrix": get_dynamical_matrix(arr.copy(), sc, prim)}
+            for how, dm in dms.items():
+                for n, (kind, qq) in enumerate(qs):
+                    for lang in ("C", "Py"):
+                        dm.run(qq, lang=lang)
+                        ok, d, scale = _close(dm.dynamical_matrix, D[n], floor)
+                        run.count("reordered primitive %s/%s/%s" % (how, layout, lang), section="oracle")
+                        if not ok:
+                            run.violation("DynamicalMatrix.run", "reordered-primitive/%s-range/%s/%s" % (clause, layout, lang),
+                                          "primitive cell with prescribed atom order (p2s_map %s): dynamical matrix differs from the lattice Fourier "
+                                          "sum by %.3g (scale %.3g)" % (info["p2s_map"], d, scale),
+                                          dict(info, q=list(map(float, qq)), layout=layout, lang=lang, via=how, kfun=kdesc))
+                    if how == "DynamicalMatrix" and n < 2 and len(ro_lines) < (40 if thorough else 12) and len(sc) * npa <= 120:
+                        dm.run(qq, lang="C")
+                        ro_lines.append(U.model_line("c", Tr, layout == "compact", U.c_phases(qq, Tr["svecs"]), arr))
+                        ro_meta.append((dm.dynamical_matrix.copy(), floor, npa, dict(info, q=list(map(float, qq)), layout=layout)))
+        for kind, qq in qs:
+            run.case(("reordered", name, smat.tolist(), tuple(perm), dense, float(cutoff), tuple(map(float, qq))), nontrivial=float(np.abs(D).max()) > 0)
+        run.count("reordered primitive cells")
+        run.sample(dict(kind="reordered-primitive", **info), limit=12)
+        n_ro += 1
+    run.cov.setdefault("timing", {})["reordered stream (python)"] = round(__import__("time").time() - _t_ro, 2)
+    if ro_lines:
+        ro_lines.append(U.compactok_line(Tr))
+        _t0 = __import__("time").time()
+        out = common.lean_run_driver("C02", ro_lines)
+        run.cov.setdefault("timing", {})["reordered stream (lean)"] = round(__import__("time").time() - _t0, 2)
+        if out[-1] != "true":
+            run.broke("correspondence", "certificate compactOk = %s on the maps of a reordered primitive cell" % out[-1], info)
+        for (impl_d, floor, npa, inf), line in zip(ro_meta, out):
+            model = U.parse_dm(line, npa)
+            run.count("reordered primitive through the Lean model", section="correspondence")
+            if model is None:
+                run.broke("correspondence", "model rejected the tables of a reordered primitive cell", inf)
+                continue
+            ok, d, scale = _close(impl_d, model, floor)
+            if not ok:
+                run.broke("correspondence", "reordered primitive cell (%s fc): implementation differs from the model by %.3g (scale %.3g)"
+                          % (inf["layout"], d, scale), inf)
 
     # frequency formula: model `frequency` (sqrt values as used by the code) vs QpointsPhonon
     if freq_lines:
